@@ -15,13 +15,18 @@ Property theorems only, about the model `Nsq.Model.Aggregate` (tied to the code 
 correspondence harness `harness/e7/view_test.go`: generated clusters, every subset of failing
 upstreams, malformed answers, both modes). They hold for every cluster: any number of
 nsqlookupd / nsqd, any topics, channels, clients and counter values (counters are unbounded
-integers: the statements are about the mathematical sums; int64 wrap-around is outside the model).
+integers: the sum statements are about the mathematical sums; what Go's int64 makes of them is
+`int64_sum_wraps` … `counters_go_sum` below).
 
 The fetch goroutines finish in any order; the model processes upstreams in list order and the
 `_order` theorems show that what is claimed does not depend on that order.
 
-`Fixes.all` is the tree with the four guards of `fixes/*.patch`; the `*_without_*` theorems are the
-Lean witnesses that the unguarded code panics (each replayed on the real code by the check).
+`Fixes.all` is the tree with all six guards: the four committed ones (F4, null array elements, missing
+latency member, channel not found) and the two proposed in round 7 (`nilPct` = fixes/F53, `clearNodes` =
+fixes/F54 — until they are committed to /repo the two defects are open known findings). The `*_without_*`
+theorems are the Lean witnesses that the unguarded code panics (each replayed on the real code by the check).
+One clause of the property is false of the code *and* of `Fixes.all`: "502 only when none answers" with
+zero known producers (`only_502_when_something_failed_false`, open finding, no patch).
 -/
 namespace Nsq.Props.C18
 open Nsq.Model.Aggregate
